@@ -523,7 +523,7 @@ func drawOp(t *rapid.T, n int) op {
 }
 
 func TestRandomSequences(t *testing.T) {
-	kit.Rapid(t, "seq", 300000, 3000000, func(t *rapid.T) {
+	kit.Rapid(t, "seq", 300000, 12000000, func(t *rapid.T) {
 		n := rapid.IntRange(4, 7).Draw(t, "n")
 		init := rapid.SampledFrom(initials).Draw(t, "init")
 		nops := rapid.IntRange(1, 30).Draw(t, "nops")
